@@ -63,6 +63,7 @@ def run_one(args):
             # (large truncation degrees included: a change may only affect high orders)
             deep = (7, 9, 12, 16, 24, 33, 40, 65) if not con.cell_shapes(cfg) else (5, 6, 8, 11)
             for D in deep:
+              for rep_ in range(4):              # several draws per degree: scalar parameters (exponents, ...) and sparsity patterns vary
                 n, fail = native.check_kernel(con, cfg, D, 2, (2,), rng)
                 out['native_cells'] += n; out['native_runs'] += 1; out['deep_standin'] = list(deep)
                 if fail:
